@@ -69,7 +69,7 @@ type Case struct {
 	DelaysUS map[string]int    `json:"delays_us,omitempty"`
 }
 
-const query = `query($r: [_Any!]!) { _entities(representations: $r) { __typename ... on User { marker } ... on Item { marker } ... on Pair { marker } ... on Crate { marker } ... on Nested { marker } ... on Planet { marker diameter size } ... on Shipment { marker volume crate { box { dims { width height } } } } ... on MUser { marker } ... on MItem { marker } } }`
+const query = `query($r: [_Any!]!) { _entities(representations: $r) { __typename ... on User { marker } ... on Item { marker } ... on Pair { marker } ... on Crate { marker } ... on Nested { marker } ... on Planet { marker diameter size } ... on Shipment { marker volume cost tax crateWeight crate { weight box { dims { width height } } } } ... on MUser { marker } ... on MItem { marker } } }`
 
 // state the entity resolvers consult
 type state struct {
@@ -210,7 +210,7 @@ func fillEntityResolvers(stub any) {
 }
 
 // fillRequiresResolvers (federation computed_requires): a @requires field is a resolver that is handed
-// the required fields of its representation; it answers with the sum of all numbers in them, so the
+// its representation; it answers with the sum of the numbers its @requires selection names, so the
 // response tells which representation gqlgen handed over.
 func fillRequiresResolvers(stub any) {
 	sv := reflect.ValueOf(stub).Elem()
@@ -225,8 +225,9 @@ func fillRequiresResolvers(stub any) {
 			if ft.Kind() != reflect.Func || ft.NumIn() < 3 || ft.In(ft.NumIn()-1) != mapT || !rs.Field(j).CanSet() {
 				continue
 			}
+			fname := rs.Type().Field(j).Name
 			rs.Field(j).Set(reflect.MakeFunc(ft, func(in []reflect.Value) []reflect.Value {
-				sum := sumNumbers(in[len(in)-1].Interface())
+				sum := requiredSum(fname, in[len(in)-1].Interface())
 				out := reflect.New(ft.Out(0)).Elem()
 				switch out.Kind() {
 				case reflect.Int, reflect.Int64, reflect.Int32:
@@ -240,6 +241,28 @@ func fillRequiresResolvers(stub any) {
 			}))
 		}
 	}
+}
+
+// requiredSum: the resolver is handed the whole representation; it reads the selection its own
+// @requires names.
+func requiredSum(field string, rep any) int64 {
+	at := func(path ...string) any {
+		v := rep
+		for _, p := range path {
+			m, _ := v.(map[string]any)
+			v = m[p]
+		}
+		return v
+	}
+	switch field {
+	case "Volume":
+		return sumNumbers(at("crate", "box", "dims", "width")) + sumNumbers(at("crate", "box", "dims", "height"))
+	case "Cost":
+		return sumNumbers(at("crate", "weight"))
+	case "Tax":
+		return sumNumbers(at("crateWeight"))
+	}
+	return sumNumbers(rep)
 }
 
 func sumNumbers(v any) int64 {
@@ -303,6 +326,7 @@ type expected struct {
 	typ     string
 	diam    *int64
 	dims    *[2]int64 // width, height of a Shipment's nested @requires
+	weights *[2]int64 // crate.weight and crateWeight of a Shipment
 }
 
 func lookupPath(m map[string]any, path []string) (any, bool) {
@@ -455,6 +479,17 @@ func model(c Case) ([]expected, bool) {
 					if e1 == nil && e2 == nil {
 						e.dims = &[2]int64{wi, hi}
 					}
+					cw, ok3 := lookupPath(rep, []string{"crate", "weight"})
+					fw, ok4 := lookupPath(rep, []string{"crateWeight"})
+					if ok3 && ok4 {
+						cn, _ := cw.(json.Number)
+						fn, _ := fw.(json.Number)
+						ci, e3 := cn.Int64()
+						fi, e4 := fn.Int64()
+						if e3 == nil && e4 == nil {
+							e.weights = &[2]int64{ci, fi}
+						}
+					}
 				}
 			}
 		}
@@ -603,6 +638,14 @@ func check(c Case) *vfrun.Failure {
 						return vfrun.Failf("entities.requires-from-other-representation", "%s: element %d: the resolver of volume was handed required fields that sum to %v, its representation's sum to %d", desc, i, v, ex.dims[0]+ex.dims[1])
 					}
 				}
+				if ex.weights != nil {
+					if v := el.Get("cost"); v == nil || v.Canon() != fmt.Sprint(ex.weights[0]) {
+						return vfrun.Failf("entities.requires-from-other-representation", "%s: element %d: the resolver of cost was handed crate.weight %v, its representation says %d", desc, i, v, ex.weights[0])
+					}
+					if v := el.Get("tax"); v == nil || v.Canon() != fmt.Sprint(ex.weights[1]) {
+						return vfrun.Failf("entities.requires-from-other-representation", "%s: element %d: the resolver of tax was handed crateWeight %v, its representation says %d", desc, i, v, ex.weights[1])
+					}
+				}
 				if ex.diam != nil {
 					if v := el.Get("size"); v == nil || v.Canon() != fmt.Sprint(*ex.diam) {
 						return vfrun.Failf("entities.requires-from-other-representation", "%s: element %d: the resolver of size was handed diameter %v, its representation says %d", desc, i, v, *ex.diam)
@@ -610,6 +653,20 @@ func check(c Case) *vfrun.Failure {
 				}
 				vfrun.Label("computed-requires")
 				continue
+			}
+			if ex.weights != nil {
+				gw, gf := "", ""
+				if c := el.Get("crate"); c != nil && c.Kind == strictjson.Object {
+					if w := c.Get("weight"); w != nil {
+						gw = w.Canon()
+					}
+				}
+				if w := el.Get("crateWeight"); w != nil {
+					gf = w.Canon()
+				}
+				if gw != fmt.Sprint(ex.weights[0]) || gf != fmt.Sprint(ex.weights[1]) {
+					return vfrun.Failf("entities.requires-from-other-representation", "%s: element %d has crate.weight=%s crateWeight=%s, its representation says %d and %d", desc, i, gw, gf, ex.weights[0], ex.weights[1])
+				}
 			}
 			if ex.dims != nil {
 				var got [2]string
@@ -692,7 +749,7 @@ func genRep(t *rapid.T) string {
 	case 4:
 		return fmt.Sprintf(`{"__typename":"Planet","name":%q,"diameter":%d}`, str("name"), rapid.IntRange(1, 9).Draw(t, "diam"))
 	case 12:
-		return fmt.Sprintf(`{"__typename":"Shipment","id":%q,"crate":{"box":{"dims":{"width":%d,"height":%d}}}}`, str("shipid"), rapid.IntRange(1, 40).Draw(t, "width"), rapid.IntRange(41, 90).Draw(t, "height"))
+		return fmt.Sprintf(`{"__typename":"Shipment","id":%q,"crate":{"weight":%d,"box":{"dims":{"width":%d,"height":%d}}},"crateWeight":%d}`, str("shipid"), rapid.IntRange(100, 140).Draw(t, "cweight"), rapid.IntRange(1, 40).Draw(t, "width"), rapid.IntRange(41, 90).Draw(t, "height"), rapid.IntRange(200, 240).Draw(t, "fweight"))
 	case 5, 6:
 		return fmt.Sprintf(`{"__typename":"MUser","id":%q}`, str("mid"))
 	case 7, 8:
